@@ -61,6 +61,8 @@ static struct th th[MAXT];
 static sem_t main_sem;
 static int cur = -1;
 static __thread int me = -1;
+static __thread int in_call;        /* this thread is inside a wrapped exec call (set by do_call) */
+static int deep_io;                 /* --deep-io: I/O issued by libc on the library's behalf (NSS, tz data, stdio) is a stop point too */
 
 /* shadow of Snoopy's mutex(es) */
 static pthread_mutex_t *sh_m[4];
@@ -202,7 +204,7 @@ static void maybe_park(int kind) { maybe_park_l(kind, kind == K_ACQ ? "in-lock" 
 #include <stdarg.h>
 #include <sys/file.h>
 #include <sys/socket.h>
-#define IO_PARK(name) do { void *ra_ = __builtin_return_address(0); if (fk_mode && sched_active && me >= 0 && from_snoopy(ra_)) maybe_park_l(K_IO, "io:" name); } while (0)
+#define IO_PARK(name) do { void *ra_ = __builtin_return_address(0); if (fk_mode && sched_active && me >= 0) { if (from_snoopy(ra_)) maybe_park_l(K_IO, "io:" name); else if (deep_io && in_call) maybe_park_l(K_IO, "libc-io:" name); } } while (0)
 __attribute__((visibility("default"))) int open(const char *p, int flags, ...) {
     static int (*r)(const char *, int, ...);
     if (!r) r = dlsym(RTLD_NEXT, "open");
@@ -312,8 +314,10 @@ static void do_call(const char *tok, int use_v) {
     char *envp[] = {"E=1", NULL};
     int (*volatile p_execv)(const char *, char *const *) = execv;
     int (*volatile p_execve)(const char *, char *const *, char *const *) = execve;
+    in_call = 1;
     if (use_v) p_execv(path, argv);
     else p_execve(path, argv, envp);
+    in_call = 0;
 }
 
 static void *worker(void *a) {
@@ -702,6 +706,7 @@ int main(int argc, char **argv) {
     for (int i = 1; i < argc; i++) {
         if (!strcmp(argv[i], "--mount")) mnt = argv[++i];
         else if (!strcmp(argv[i], "--mode")) mode = argv[++i];
+        else if (!strcmp(argv[i], "--deep-io")) deep_io = 1;
         else if (!strcmp(argv[i], "--threads")) NT = atoi(argv[++i]);
         else if (!strcmp(argv[i], "--calls")) NC = atoi(argv[++i]);
         else if (!strcmp(argv[i], "--preemptions")) maxpre = atoi(argv[++i]);
